@@ -687,6 +687,13 @@ pub fn drive_dec(spec: &DecSpec, mode: DecMode, source: &mut dyn OpSource, mut p
                 }
                 let pending = &spec.stream[consumed..visible];
                 let last = eof && visible == len;
+                if crate::sink::peek_every_call() {
+                    // C17: the queries are asked before every call (what = 255: short ladder)
+                    if let Some(f) = peek_fn.as_mut() {
+                        let v = f(&decs[0], spec, &run.calls, consumed, pending, 255);
+                        run.viols.extend(v);
+                    }
+                }
                 let proxy = state_proxy(&decs[0]);
                 // this call's method and output form (the session's own unless the pump switches)
                 let call_repl = match offer.method {
